@@ -73,7 +73,8 @@ BOUNDS = {
     "matrix operands with 1-2 rows and vector operands, keep_dim/copy in {False,True}, tuple / wrapper / method entry points; permutation R <= 2 plus one 1x2 R=3 case; "
     "padding 1-2; from_CPTensor second mode >= R; compression: slices 2x1, 3x1, 1x2, 2x2 (2x2 with a symbolic threshold in (0,1]), max_rank None or n_cols+1, "
     "all singular values kept; projections of the model fitted to 2-row score matrices from a catalogue of 3 rational frames",
-    "thorough": "orders 2-4, mode sizes in {1,2,3}, R <= 3 (normalisation: order*R <= 9, sign flip: order*R <= 8); permutation R <= 3; compression slices up to 3x2",
+    "thorough": "orders 2-4, mode sizes in {1,2,3}, R <= 3 (normalisation and sign flip: order*R <= 8; sign flip on all inputs: order*R <= 6, else non-zero-mean columns); "
+    "permutation R <= 3; compression slices up to 3x2 (3x2: left/right singular vectors from the catalogue of rational frames, singular values symbolic)",
 }
 OUTSIDE = [
     "sizes > 3, orders > 4, ranks > 3",
@@ -121,11 +122,11 @@ def configs(tier):
     # ---- cp_normalize
     for shp in base:
         for R in Rs:
-            if len(shp) * R > (6 if q else 9):
+            if len(shp) * R > (6 if q else 8):
                 continue
             for w in (0, 1):
                 for how in ("tuple", "wrapper", "method"):
-                    if how != "tuple" and (shp not in [(2, 2), (2, 2, 2)] or R != max(r for r in Rs if len(shp) * r <= (6 if q else 9))):
+                    if how != "tuple" and (shp not in [(2, 2), (2, 2, 2)] or R != max(r for r in Rs if len(shp) * r <= (6 if q else 8))):
                         continue
                     add(f"core/cpnorm/{shp}/R{R}/w{w}/{how}", fam="cpnorm", shape=shp, R=R, w=w, how=how, mode="fork")
     # ---- tucker_normalize
@@ -138,7 +139,7 @@ def configs(tier):
                 continue
             add(f"core/tknorm/{shp}/r{rk}/{how}", fam="tknorm", shape=shp, ranks=rk, how=how, mode="fork")
     # ---- parafac2_normalise
-    p2 = [((2,), 1, 2), ((2, 3), 1, 1), ((2, 2), 2, 1), ((2,), 2, 2)] + ([] if q else [((2, 3), 2, 2), ((3, 2, 2), 2, 2), ((3,), 3, 2)])
+    p2 = [((2,), 1, 2), ((2, 3), 1, 1), ((2, 2), 2, 1), ((2,), 2, 2)] + ([] if q else [((2, 3), 2, 2), ((3, 2, 2), 2, 2), ((3, 3), 2, 1)])
     for Js, R, K in p2:
         for w in (0, 1):
             for how in ("tuple", "wrapper"):
@@ -151,9 +152,11 @@ def configs(tier):
             if len(shp) * R > (6 if q else 8):
                 continue
             for m in range(len(shp)):
-                if q and len(shp) * R >= 6 and m != 1:
-                    continue  # 3^(R*order) sign patterns per configuration: one target mode of the largest case in the quick tier
+                if len(shp) * R >= (6 if q else 8) and m != 1:
+                    continue  # 3^(R*order) sign patterns per configuration: one target mode only for the largest case of each tier
                 for pre in ("any", "nzmean"):
+                    if pre == "any" and (len(shp) * R > 6 or max(shp) * R > 6):
+                        continue  # all-input runs on the small cases only (3^(R*order) paths; float-exact zero-mean witnesses exist there)
                     add(f"core/flip/{shp}/R{R}/m{m}/w1/tuple/{pre}", fam="flip", shape=shp, R=R, tmode=m, w=1, how="tuple", pre=pre, mode="fork")
     for pre in ("any", "nzmean"):
         add(f"core/flip/(2, 2)/R2/m0/w1/wrapper/{pre}", fam="flip", shape=(2, 2), R=2, tmode=0, w=1, how="wrapper", pre=pre, mode="fork")
@@ -236,7 +239,8 @@ def configs(tier):
         sv += [([(3, 2)], 1, "none"), ([(3, 2)], 2, "none"), ([(3, 2), (2, 2)], 2, "thr"), ([(3, 2)], 2, "maxrank")]
     for sl, R, opt in sv:
         tall = any(min(n, c) > 1 and (n > c or opt == "thr") for n, c in sl)
-        for cat in (0, 1, 2) if tall else (0,):
+        symbolic_U = all(n <= 2 or min(n, c) == 1 for n, c in sl)  # 3x2 frames under P^T P = I: z3 does not decide svd_flip's branches
+        for cat in ((0, 1, 2) if tall else (0,)) if symbolic_U else ():
             add(f"core/svdc/{sl}/R{R}/{opt}/P{cat if tall else 'sym'}", fam="svdc", slices=sl, R=R, opt=opt, cat=cat, mode="fork", branch_timeout_ms=8000)
         for cat in (0, 1):
             add(f"core/svdc/{sl}/R{R}/{opt}/Ucat{cat}", fam="svdc", slices=sl, R=R, opt=opt, cat=cat, U="cat", mode="fork")
